@@ -35,7 +35,10 @@ Inductive btype := TyHeader | TyData | TyOther.
 Inductive hdr := HdrBad | HdrOk (ty : btype) (datasize : Z).
 
 (* zlib: reader/stream error, or the number of bytes the stream inflates to *)
-Inductive inflate := InflErr | InflOk (n : Z).
+(* InflTrailing n: a complete zlib stream inflating to n bytes FOLLOWED BY extra bytes inside
+   zlib_data (compress/zlib ignores them; the streaming czlib reader of the cgo build spun forever
+   on them, see v_trailing_spins) *)
+Inductive inflate := InflErr | InflOk (n : Z) | InflTrailing (n : Z).
 Inductive encoding := EncRaw | EncZlib (raw_size : Z) (z : inflate) | EncNone.
 
 (* in-block decode outcome of dataDecoder.scanPrimitiveBlock on the payload *)
@@ -70,10 +73,12 @@ Record variant := Variant {
   v_eof_passthrough : bool;   (* io.EOF of a ReadFull inside a block is returned as is *)
   v_neg_datasize_panics : bool; (* blobBuf[:datasize] with datasize < 0 *)
   v_first_other_is_data : bool; (* a first block that is neither OSMHeader nor OSMData is decoded as data *)
-  v_rawsize_unchecked : bool    (* raw_size is used for the allocation before any check *)
+  v_rawsize_unchecked : bool;   (* raw_size is used for the allocation before any check *)
+  v_trailing_spins : bool       (* cgo build: streaming czlib reader, never returns when bytes follow
+                                   the end of the zlib stream (repaired: one-shot czlib.Decompress) *)
 }.
-Definition legacy : variant := Variant true true true true.
-Definition current : variant := Variant false false false false.
+Definition legacy : variant := Variant true true true true true.
+Definition current : variant := Variant false false false false false.
 
 (* ---- io.ReadFull on a stream with [avail] bytes left ---- *)
 Inductive rerr := REOF | RUnexpectedEOF.
@@ -138,7 +143,7 @@ Definition read_file_block {O} (v : variant) (of : option (frame O)) (avail : Z)
   end.
 
 (* ---- getData ---- *)
-Inductive gres := GOk | GErr | GPanic.
+Inductive gres := GOk | GErr | GPanic | GHang.
 
 Definition wrap32 (x : Z) : Z := (x + 2147483648) mod 4294967296 - 2147483648.
 
@@ -154,20 +159,24 @@ Definition get_data (v : variant) (cap0 : Z) (e : encoding) : gres :=
       else match z with
            | InflErr => GErr
            | InflOk n => if n =? rs then GOk else GErr
+           | InflTrailing n =>
+               if v_trailing_spins v then GHang else if n =? rs then GOk else GErr
            end
   end.
 
 (* ---- what becomes of one block ---- *)
-Inductive step (O : Type) := SObjs (objs : list O) | SErr | SPanic | SOut.
+Inductive step (O : Type) := SObjs (objs : list O) | SErr | SPanic | SOut | SHang.
 Arguments SErr {O}.
 Arguments SPanic {O}.
 Arguments SOut {O}.
+Arguments SHang {O}.
 
 (* dataDecoder.Decode *)
 Definition decode_data {O} (v : variant) (b : blob O) : step O :=
   match get_data v 0 (b_enc b) with
   | GErr => SErr
   | GPanic => SPanic
+  | GHang => SHang
   | GOk => match b_pay b with
            | PData (DOk objs) => SObjs objs
            | PData DErr => SErr
@@ -181,6 +190,7 @@ Definition decode_header {O} (v : variant) (b : blob O) : step O :=
   match get_data v 0 (b_enc b) with
   | GErr => SErr
   | GPanic => SPanic
+  | GHang => SHang
   | GOk => match b_pay b with
            | PHeader HBad => SErr
            | PHeader (HOk true) => SObjs []
@@ -193,7 +203,8 @@ Definition decode_header {O} (v : variant) (b : blob O) : step O :=
 Inductive outcome := Done (* Scan returned false, Err() = nil *)
                    | Failed (* Scan returned false, Err() <> nil *)
                    | Crashed (* a panic: the calling process dies *)
-                   | OutOfModel.
+                   | OutOfModel
+                   | Hung (* a decoder never returns: the scan hangs *).
 
 (* blocks handed to the consumer, in order: (offset carried with the block, objects) *)
 Record result (O : Type) := Result { deliveries : list (Z * list O); out : outcome }.
@@ -225,6 +236,7 @@ Fixpoint blocks_loop {O} (v : variant) (fs : list (frame O)) (avail off : Z) : r
               | SErr => stop Failed
               | SPanic => stop Crashed
               | SOut => stop OutOfModel
+              | SHang => stop Hung
               end
           | _ => stop Failed            (* unexpected fileblock of type ... *)
           end
@@ -247,6 +259,7 @@ Definition scan {O} (v : variant) (fs : list (frame O)) (avail : Z) : result O :
             | SErr => stop Failed
             | SPanic => stop Crashed
             | SOut => stop OutOfModel
+            | SHang => stop Hung
             end in
           match ty with
           | TyHeader =>
@@ -255,6 +268,7 @@ Definition scan {O} (v : variant) (fs : list (frame O)) (avail : Z) : result O :
               | SErr => stop Failed
               | SPanic => stop Crashed
               | SOut => stop OutOfModel
+              | SHang => stop Hung
               end
           | TyData => as_data
           | TyOther => if v_first_other_is_data v then as_data else stop Failed
